@@ -77,6 +77,14 @@ CLAIMED.update({
         "record_errors, record_keys, res_set_unknown, res_get_agree, res_set_get. Correspondence: run-level replay through Noisy.iterStep, clauses on the call log (under specified noise: within the range of the observations at x, "
         "via C12's merged_value_within_range); container differential with mutable values mutated after recording (aliasing is heap behaviour: tested, not proved).",
    design="5 / C19", technique="Lean 4 invariants (run-level model + container model) + trace refinement and container differential"),
+ "C08": dict(
+   text="Theorems (Props/C08.lean) about Val.validate, a bit-exact transcription of BADS.__init__/_bounds_check_ on IEEE values (binary64 rounding Fl.rn of the two arithmetic expressions): checkCore_accepted / validate_norm "
+        "(an accepted definition passed every test; normalised to lb<=plb<pub<=ub, no half-bounded variable), and one rejection theorem per kind of invalid definition named by the property (rejects_no_dimension, "
+        "rejects_mismatched_dimensions, rejects_nonfinite_plausible, rejects_unordered incl. equal plausible / identical hard / NaN bounds, rejects_x0_outside, rejects_half_bounded, rejects_indistinguishable). The converse is false "
+        "of the code (valid_but_rejected_counterexample; known findings C08-margin-box, C08-ulp-bounds), so the iff is claimed only as validate_ok_iff_valid_partial. Correspondence: per-coordinate product of {absent, +-inf, NaN, ordered "
+        "finite values, values within rounding distance} for D<=2 (sampled D=3), dimension mismatches, equivalent spellings; BADS(...) verdict and normalised problem vs the model (exact), and vs Val.specValid, the property's own sentence "
+        "(failing-input detector); zero target calls at construction; Fl.rn validated against Python floats.",
+   design="5 / C08", technique="Lean 4 theorems over a bit-exact validation model + (near-)exhaustive differential"),
 })
 
 NA = {
